@@ -21,9 +21,17 @@ import (
 // its calls; MATCH, TYPE and COUNT only filter or batch.
 //
 // The case is pure data: sizes, the scan options and a list of mutation batches. Element names are
-// derived from counters ("s<i>" = never touched, "e<i>" = volatile, "t<j>" = a small pool that is
-// added and removed over and over to drive the emulator's removal counter, which is what makes its
-// table shrink), so a case replays identically from JSON.
+// derived from counters and the case's salt ("s<i>.<salt>" = never touched, "e<i>.<salt>" = volatile,
+// "t<j>.<salt>" = a small pool that is added and removed over and over to drive the emulator's removal
+// counter, which is what makes its table shrink and, with the re-insertion, grow again), so a case
+// replays identically from JSON. No math/rand, no clock.
+//
+// Oracle (nothing beyond the property): A = elements present when the first call is sent, never
+// deleted until the call that returns cursor 0, and passing MATCH/TYPE, must each be returned at
+// least once; every returned element must have been present at some time during the iteration and
+// pass MATCH/TYPE; an HSCAN value must be a value the field held during the iteration; every reply is
+// [cursor-string, array]; after the last mutation the iteration ends within 4*n+1000 calls, and in
+// any case within c17HardCap calls. Duplicates and any order are allowed.
 
 // C17Batch is the mutation applied between two consecutive calls of the iteration (or, in Pre,
 // before the first call).
